@@ -23,6 +23,14 @@ deriving DecidableEq, Repr
 
 abbrev FS := List (Path × Node)
 
+def Node.size : Node → Nat
+  | .file d => d.length
+  | _ => 0          -- directory sizes are file-system dependent; never compared
+
+def Node.isDir : Node → Bool
+  | .dir => true
+  | _ => false
+
 inductive Err where
   | ok
   | notExist      -- ENOENT: `errors.Is(err, fs.ErrNotExist)`
